@@ -375,6 +375,15 @@ func runC08(c *eng.Ctx) {
 	// ---- R15.8 (shared) the configuration keys this property's switches hang on reach their fields
 	ruleConfigWiring(c, "R15.8")
 
+	c.Rule("R01.8", "K5")
+	ruleReverseStartSlotUnclamped(c)
+	c.Rule("R01.10", "K5")
+	ruleScannersReturnFreshBuffers(c)
+
+	// ---- R14.6 (shared) a reader recognises that compaction replaced the segment under it
+	nSent := ruleSentinelIdentity(c, "R14.6", []string{cl + "(*Reader).ReadMessage"}, "the reader does not notice that the segment it was reading was replaced by the cleaner: it fails instead of re-opening at its position in the rewritten segment")
+	c.Check(nSent >= 2, "Reader.ReadMessage recognises replaced segments", "", "comparisons with ErrSegmentReplaced / ErrCommitLogReadonly found", "Reader.ReadMessage no longer tells a replaced segment apart")
+
 }
 
 func isScanResult(v ssa.Value) bool {
